@@ -18,22 +18,31 @@ RULE = ('random functional expression trees (depth 0..3 quick, 0..4 thorough) ov
         'spaces, sizes 1..6), built from every derived class of functional.py through its constructor AND through '
         'the arithmetic overloads (f*s incl. s=0, s*f incl. 0, f+c, f+g, f-g, -f, f/s, f*op, f*vec, translated, '
         'bregman), leaves L2NormSquared/L2Norm/L1Norm/Constant/Zero/Huber/QuadraticForm (vector, scaling, multiply, '
-        'matrix operator), operators Scaling/Multiply/Identity/Matrix/PowerOperator(2)/shifted/composed; points, '
+        'matrix operator), a quarter of the leaves with a user-set grad_lipschitz (finite, inf, nan), operators Scaling/Multiply/Identity/Matrix/PowerOperator(2)/shifted/composed; points, '
         'directions, vectors and scalars are small dyadic rationals so float arithmetic is exact up to the '
         'divisions (tolerance 1e-9 relative). A case is non-trivial when the tree has at least one derived node '
-        'or a non-constant leaf; distinct by (space kind, tree structure with parameters, x, d).')
+        'or a non-constant leaf; distinct by (space kind, tree structure with parameters, x, d). Two further case sets: '
+        'SeparableSum of two random trees on two different spaces, and MoreauEnvelope(L2NormSquared | L1Norm, sigma) '
+        'gradients on every space kind.')
 ASSUMPTIONS = [
     'exact arithmetic: the theorems are about real numbers; rounding, overflow, NaN payloads are out of scope',
     'complex spaces are not modelled (real spaces only)',
     'every space is represented, after flattening, as a list with one positive weight per entry; the harness '
-    'measures the weights as <e_i,e_i> and checks that the Gram matrix of the unit vectors is diagonal',
+    'measures the weights as <e_i,e_i> and checks that the Gram matrix of the unit vectors is diagonal '
+    '(Coq: such list spaces and their products satisfy SpaceLaws)',
     'the executed (Q) instance uses a rational square root of relative accuracy 1e-12 for norms; the proved (R) '
     'instance uses sqrt',
-    'leaves and operators enter the all-trees theorems through explicit soundness premises; these premises are '
-    'proved for L2NormSquared, L2Norm (x != 0), Constant, linear and quadratic forms, scaling/multiply/identity/'
-    'shift/composition/PowerOperator(2); for L1Norm and Huber coordinate-wise on weighted lists',
-    'KullbackLeibler variants, GroupL1Norm, group Huber, SeparableSum, MoreauEnvelope, NumericalGradient and '
-    'RosenbrockFunctional are validated by probes only (log/exp/prox are outside the rational model)',
+    'leaves and operators enter the all-trees theorems through explicit soundness premises; the premises are '
+    'proved for L2NormSquared, L2Norm (x != 0), Constant/Zero, linear and quadratic forms (scaling, multiply), '
+    'L1Norm (no zero entry), Huber, the four Kullback-Leibler functionals, MoreauEnvelope (given a minimising, '
+    'non-expansive prox; shown for L2NormSquared), SeparableSum, and for the operators Identity/Scaling/Multiply/'
+    'PowerOperator(2)/Matrix (unit weights)/A - t/composition',
+    'the Kullback-Leibler leaves use ln/exp and exist at R only: their tie to the code is by probes',
+    'MoreauEnvelope has no _call in the code: the modelled value is the envelope min_y f(y)+|x-y|^2/(2 sigma)',
+    'GroupL1Norm, Huber on power spaces, simple_functional, NumericalGradient, ScalingFunctional and '
+    'RosenbrockFunctional are validated by probes only',
+    'MatrixOperator inside FunctionalComp is exercised on unweighted rn only (its adjoint on weighted spaces is '
+    'the subject of C05)',
 ]
 TRUSTED = [
     'coq/C09/Model.v hand-written transcription of functional.py / default_functionals.py (validated by the '
